@@ -6,6 +6,8 @@
 Require Import Verif.Common.Base Verif.Common.LockEv.
 Require Import Verif.Model.C15 Verif.Spec.C15.
 Require Import Verif.Proof.C15 Verif.Proof.C15_hist Verif.Proof.C15_locks Verif.Proof.C15_complete.
+Require Import Verif.Proof.C15_sort Verif.Proof.C15_nonempty Verif.Proof.C15_shuffle.
+From Coq Require Import Sorted.
 From Coq Require Import Permutation.
 Open Scope Z_scope.
 
@@ -86,6 +88,69 @@ Theorem C15_resolve_meets_spec : forall scheme rs,
 Proof. exact resolve_meets_spec. Qed.
 Print Assumptions C15_resolve_meets_spec.
 
+(* ---- the result does not depend on how sort.Slice sorts ---- *)
+
+(* sort_post rs srt: srt is a rearrangement of the answer in which no later element is less
+   (by the comparator of the code) than an earlier one - all that sort.Slice guarantees.  For
+   EVERY such srt the code's remaining steps select exactly the lowest-priority records and
+   return a list that satisfies the property ... *)
+Theorem C15_any_sort_meets_spec : forall scheme rs srt,
+  wf_rs rs -> sort_post rs srt ->
+  Permutation (low_group srt) (low rs) /\ Spec scheme rs (resolve_from scheme srt).
+Proof. exact any_sort_meets_spec. Qed.
+Print Assumptions C15_any_sort_meets_spec.
+
+(* ... and the same multiset of hosts as the model computes with its insertion sort (so the
+   correspondence comparison does not depend on the sorting algorithm either) *)
+Theorem C15_any_sort_same_multiset : forall scheme rs srt,
+  wf_rs rs -> sort_post rs srt ->
+  Permutation (resolve_from scheme srt) (resolve scheme rs).
+Proof. exact any_sort_same_multiset. Qed.
+Print Assumptions C15_any_sort_same_multiset.
+
+(* ---- never loses hosts ---- *)
+
+(* the list is non-empty exactly when some record of the lowest priority has a positive weight *)
+Theorem C15_nonempty_iff : forall scheme rs,
+  wf_rs rs ->
+  (resolve scheme rs <> [] <-> exists a, In a (low rs) /\ 0 < weight a).
+Proof. exact resolve_nonempty_iff. Qed.
+Print Assumptions C15_nonempty_iff.
+
+(* the heaviest lowest-priority target is never rounded away *)
+Theorem C15_keeps_heaviest : forall scheme rs,
+  wf_rs rs -> (exists a, In a (low rs) /\ 0 < weight a) ->
+  exists m, In m (low rs) /\ 0 < weight m /\ (forall x, In x (low rs) -> weight x <= weight m) /\
+            In (host_of scheme m) (resolve scheme rs).
+Proof. exact resolve_keeps_heaviest. Qed.
+Print Assumptions C15_keeps_heaviest.
+
+(* along EVERY history: after a lookup succeeded with a usable answer, every read before the
+   next successful lookup returns a list containing the heaviest lowest-priority target,
+   however many refreshes fail in between, whatever records the failing lookups return and
+   whatever callers write into their copies *)
+Theorem C15_never_loses_hosts : forall scheme pre post rs,
+  last_ok None pre = Some rs -> wf_rs rs ->
+  (exists a, In a (low rs) /\ 0 < weight a) ->
+  exists l m, nth_error (reads scheme (pre ++ ERead :: post)) (n_reads pre) = Some l /\
+              In m (low rs) /\ (forall x, In x (low rs) -> weight x <= weight m) /\
+              In (host_of (eff_scheme scheme) m) l.
+Proof. exact never_loses_hosts. Qed.
+Print Assumptions C15_never_loses_hosts.
+
+(* lists longer than 100 are shuffled (sd.NewRandomFixedSubscriber, res[j] = hosts[perm[j]]):
+   what update stores is a rearrangement of what resolve computed, given that rand.Perm returns
+   a permutation of 0..n-1 (checked on every observed rand.Perm result by the CShuffle cases) *)
+Theorem C15_shuffle_keeps_hosts : forall scheme rs perm,
+  is_perm_of (List.length (resolve scheme rs)) perm ->
+  Permutation (update_store scheme rs perm) (resolve scheme rs).
+Proof. exact update_store_perm. Qed.
+Print Assumptions C15_shuffle_keeps_hosts.
+
+Theorem C15_perm_check_sound : forall n perm, is_perm_b n perm = true -> is_perm_of n perm.
+Proof. exact is_perm_b_sound. Qed.
+Print Assumptions C15_perm_check_sound.
+
 (* ---- histories: failed refreshes, private copies ---- *)
 
 (* every read returns the list resolved from the last lookup that succeeded before it (the
@@ -162,6 +227,17 @@ Theorem C15_model_meets_oracle : forall scheme rs,
 Proof. exact model_meets_oracle. Qed.
 Print Assumptions C15_model_meets_oracle.
 
+(* the same tie for the other case kinds: histories and the unit-level compact cases *)
+Theorem C15_hist_model_meets_oracle : forall scheme evs,
+  Forall wf_ev evs -> spec_hist_b (eff_scheme scheme) None evs (reads scheme evs) = true.
+Proof. exact hist_model_meets_oracle. Qed.
+Print Assumptions C15_hist_model_meets_oracle.
+
+Theorem C15_compact_model_meets_oracle : forall ws,
+  wf_ws ws -> spec_compact_b ws (compact ws) = true.
+Proof. exact compact_model_meets_oracle. Qed.
+Print Assumptions C15_compact_model_meets_oracle.
+
 Theorem C15_hist_oracle_sound : forall scheme evs cur obs,
   spec_hist_b scheme cur evs obs = true -> SpecHist scheme cur evs obs.
 Proof. exact spec_hist_b_sound. Qed.
@@ -205,3 +281,16 @@ Example C15_ex_unlocked_read_races :
     exec (start [[LRead "cache"]] [[LLock "mutex"; LWrite "cache"; LUnlock "mutex"]]) sched = Some c /\
     race c = true.
 Proof. exact undisciplined_races. Qed.
+
+(* sort_post is satisfiable: the model's sort meets it, and so does another order of two
+   records the comparator cannot separate *)
+Example C15_ex_sort_post :
+  let rs := [Srv "b." 80 1 5; Srv "a." 80 0 0; Srv "a." 81 0 7; Srv "a." 80 0 0] in
+  sort_post rs (sort_srv rs).
+Proof. split; [apply sort_perm|vm_compute; repeat constructor]. Qed.
+(* the hypothesis on rand.Perm is needed: an index list that is not a permutation loses hosts *)
+Example C15_ex_shuffle_needs_perm : exists perm hosts,
+  List.length perm = List.length hosts /\ ~ Permutation (shuffle_with perm hosts) hosts.
+Proof. exact shuffle_needs_perm. Qed.
+Example C15_ex_is_perm : is_perm_of 3 [2; 0; 1]%nat.
+Proof. unfold is_perm_of. simpl. apply Permutation_sym. apply perm_trans with [0; 2; 1]%nat; [constructor; apply perm_swap|apply perm_swap]. Qed.
